@@ -1119,7 +1119,7 @@ def c08(tier):
     # Miri (Tree Borrows) on a reduced batch: sees intra-object overflow and uninitialised reads, which ASan cannot
     miri = None
     if not q:
-        miri = run_miri(wd, inputs[:: max(1, len(inputs) // 300)])
+        miri = run_miri(wd, inputs)
         if miri.get("error"):
             violations.append(core.write_replay("C08", {"property": "C08", "what": "Miri reported undefined behaviour", "output_tail": miri["error"]}))
     tags = collections.Counter(r["tag"] for r in inputs)
@@ -1148,10 +1148,19 @@ def c08(tier):
 def run_miri(wd, inputs):
     inp = os.path.join(wd, "miri-in.ndjson")
     outp = os.path.join(wd, "miri-out.ndjson")
-    small = [r for r in inputs if core.segs_len(r["int"]) + core.segs_len(r["frac"]) <= 2100][:300]
+    # a few records of every family (Miri is ~1000x slower than native), short ones first
+    by_tag = collections.defaultdict(list)
+    for r in inputs:
+        if core.segs_len(r["int"]) + core.segs_len(r["frac"]) <= 2100:
+            by_tag[r["tag"]].append(r)
+    small = []
+    for tag, lst in sorted(by_tag.items()):
+        rng = gen.rng_for("miri" + tag)
+        small += rng.sample(lst, min(len(lst), 60))
     core.write_ndjson(inp, [{k: v for k, v in r.items() if k != "tag"} for r in small])
     env = {"MIRIFLAGS": "-Zmiri-tree-borrows -Zmiri-disable-isolation", "CARGO_TARGET_DIR": os.path.join(core.HARNESS, "target", "miri")}
-    p, wall = core.run(["cargo", "+nightly", "miri", "run", "--features", "std,verif", "--bin", "run_parse", "--", "--in", inp, "--out", outp],
+    # release profile: with overflow checks on, a clean arithmetic panic can mask an undefined access further down
+    p, wall = core.run(["cargo", "+nightly", "miri", "run", "--release", "--features", "std,verif", "--bin", "run_parse", "--", "--in", inp, "--out", outp],
                        cwd=core.HARNESS, env=env, timeout=3000, check=False)
     if p.returncode != 0:
         txt = p.stdout or ""
